@@ -473,27 +473,43 @@ class Engine:
         self.round_atoms.append((fn, r, x))
 
     def _shift_instance(self, atom, r, x, r2, x2):
-        """if x - x2 is an integer-valued expression (integer combination of declared integer atoms)
-        add  no-tie(x2) -> rint(x) = rint(x2) + (x - x2)   [lemma L2]"""
-        d = x - x2
-        if d.d:
-            return
-        for m, c in d.n.items():
-            if c.denominator != 1:
-                return
-            for at, e in m:
-                if S.REG.atoms[at].kind != "ivar":
-                    return
+        """if x - x2 (or x + x2) is an integer-valued expression (integer combination of declared integer atoms) add
+        no-tie(x2) -> rint(x) = rint(x2) + (x - x2)     [lemma L2]
+        no-tie(x2) -> rint(x) = (x + x2) - rint(x2)     [L2 with L4: rint symbols are kept for one sign of the argument]"""
         half = Fraction(1, 2)
-        t1, t2 = (x2 - r2) == half, (r2 - x2) == half
-        if isinstance(t1, bool) or isinstance(t2, bool):
+        for sign in (1, -1):
+            d = x - x2 if sign == 1 else x + x2
+            if d.d:
+                continue
+            ok = True
+            for m, c in d.n.items():
+                if c.denominator != 1:
+                    ok = False
+                    break
+                for at, e in m:
+                    if S.REG.atoms[at].kind != "ivar":
+                        ok = False
+                        break
+                if not ok:
+                    break
+            if not ok:
+                continue
+            t1, t2 = (x2 - r2) == half, (r2 - x2) == half
+            if isinstance(t1, bool) or isinstance(t2, bool):
+                return
+            S.REG.union([atom.idx, *x2.atomset(), *r2.atomset(), *d.atomset()])
+            rhs = (r2 + d) if sign == 1 else (d - r2)
+            self._on_axiom(z3.Implies(z3.Not(z3.Or(t1.z, t2.z)), atom.z == rhs.to_z3()), atom.idx)
+            self.lemmas.add("rint L2: no tie & k integer -> rint(x+k) = rint(x)+k (instances for integer-valued differences)")
             return
-        S.REG.union([atom.idx, *x2.atomset(), *r2.atomset(), *d.atomset()])
-        self._on_axiom(z3.Implies(z3.Not(z3.Or(t1.z, t2.z)), atom.z == (r2 + d).to_z3()), atom.idx)
-        self.lemmas.add("rint L2: no tie & k integer -> rint(x+k) = rint(x)+k (instances for integer-valued differences)")
 
     def find_round(self, fn, x: SR):
         """the code's rint/floor atom whose argument provably equals x (structural, then solver)"""
+        if fn == "rint" and x.n:
+            lead = max(x.n, key=lambda m: (sum(e for _, e in m), m))
+            if x.n[lead] < 0:           # rint symbols are kept for one sign of the argument only (rint is odd)
+                r = self.find_round(fn, -x)
+                return None if r is None else -r
         k = x.key()
         for (fn2, r2, x2) in self.round_atoms:
             if fn2 == fn and x2.key() == k:
